@@ -17,6 +17,16 @@ from loki.logging import warning
 __all__ = ['DuplicateKernel', 'RemoveKernel', 'SeparateModesKernel']
 
 
+def _called_name(call):
+    """
+    The lower-case name of the procedure a :any:`CallStatement` refers to: for a
+    procedure that was renamed on import (``USE mod, ONLY: alias => name``) this
+    is the name in the defining module, i.e. the local name of its :any:`Item`.
+    """
+    use_name = getattr(getattr(call.name, 'type', None), 'use_name', None)
+    return str(use_name or call.name).lower()
+
+
 class DuplicateKernel(Transformation):
     """
     Duplicate subroutines which includes the creation of new :any:`Item`s
@@ -153,7 +163,7 @@ class DuplicateKernel(Transformation):
         """
         call_map = {}
         for call in FindNodes(ir.CallStatement).visit(new_item.ir.body):
-            call_name = str(call.name).lower()
+            call_name = _called_name(call)
             new_call_name = f'{call_name}{self.suffix}'.lower()
             if new_call_name in new_dependencies:
                 call_new_item = new_dependencies[new_call_name]
@@ -163,7 +173,12 @@ class DuplicateKernel(Transformation):
         imp_map = {}
         for imp in FindNodes(ir.Import).visit(new_item.ir.spec):
             # potentially new symbols
-            symbol_map = {symbol: symbol.clone(name=f'{symbol.name}{self.suffix}') for symbol in imp.symbols}
+            symbol_map = {
+                symbol: symbol.clone(
+                    name=f'{getattr(symbol.type, "use_name", None) or symbol.name}{self.suffix}',
+                    type=symbol.type.clone(use_name=None)
+                ) for symbol in imp.symbols
+            }
             new_symbols = ()
             orig_symbols = ()
             # distinguish imported symbols that should remain and those which should be altered
@@ -272,7 +287,7 @@ class DuplicateKernel(Transformation):
         call_map = {}
         new_imports = []
         for call in FindNodes(ir.CallStatement).visit(routine.body):
-            call_name = str(call.name).lower()
+            call_name = _called_name(call)
             if call_name in self.duplicate_kernels:
                 # Duplicate the call
                 new_call_name = f'{call_name}{self.suffix}'.lower()
@@ -327,7 +342,7 @@ class RemoveKernel(Transformation):
     def transform_subroutine(self, routine, **kwargs):
         call_map = {
             call: None for call in FindNodes(ir.CallStatement).visit(routine.body)
-            if str(call.name).lower() in self.remove_kernels
+            if _called_name(call) in self.remove_kernels
         }
         routine.body = Transformer(call_map).visit(routine.body)
 
